@@ -833,6 +833,9 @@ func runLedgerCase(o *drv.Out, ci int) {
 			cs = []uint64{1}
 		}
 		stake := []uint64{1000000, 100, 7, 1, 123456789, 1 << 62, 999}[r.Intn(7)]
+		if stake == 1<<62 && i > 0 {
+			stake = 1 << 40 // the genesis total must stay below 2^64: at most one validator near the top
+		}
 		gvs = append(gvs, genVal{vals[i], stake, cs})
 		lc.vs = append(lc.vs, vals[i])
 	}
